@@ -19,7 +19,7 @@ from typing import TYPE_CHECKING, Any
 from .constants import flag_to_seq
 from .exceptions import Bad
 from .generator import get_msg_size, msg_as_string
-from .utils import parsedate, sequence_set_to_list
+from .utils import clip_sequence_set, parsedate, sequence_set_to_list
 
 if TYPE_CHECKING:
     from .mbox import Mailbox
@@ -450,7 +450,9 @@ class IMAPSearch:
         if self._msg_set_cache is None or self._msg_set_cache[0] != set_max:
             try:
                 numbers = sequence_set_to_list(
-                    self.args["msg_set"], set_max, uid_cmd=True
+                    clip_sequence_set(self.args["msg_set"], set_max),
+                    set_max,
+                    uid_cmd=True,
                 )
             except Bad:
                 # A set that can not denote any message (`0`) matches nothing
